@@ -361,7 +361,9 @@ func c17RunMDNS(tb drv.TB, rec *drv.Rec, sub string, c c17MDNS) {
 	n := copy(buf, fb)
 	var ip4, ip6 []packet.IPNameEntry
 	var gerr error
-	if len(c.Prior) >= 2 && len(c.Prior) <= 1400 && len(c.Data) >= 2 && (!bytes.Equal(c.Prior[:2], c.Data[:2]) || !bytes.Equal(c.PriorMAC, c.MAC)) {
+	// (a response with the same id from the same station is a retransmission as far as the handler's cache is
+	// concerned - but only for a response: a query is never answered from that cache)
+	if len(c.Prior) >= 2 && len(c.Prior) <= 1400 && len(c.Data) >= 3 && (!bytes.Equal(c.Prior[:2], c.Data[:2]) || !bytes.Equal(c.PriorMAC, c.MAC) || c.Data[2]&0x80 == 0) {
 		var pm ref.MAC
 		copy(pm[:], c.PriorMAC)
 		pn := copy(buf, c17Frame(w, 5353, 5353, pm, c.Prior))
@@ -776,11 +778,11 @@ func TestC17(t *testing.T) {
 			m0 := gen.DNSMsg(t, gen.DNSOptions{MDNS: true, Response: true})
 			p, _, _ := m0.Encode(ref.OwnerOnly)
 			if len(p) >= 2 {
-				d := rapid.SampledFrom([]uint16{1, 2, 0x80, 0xff, 0x100, 0x8000, 0}).Draw(t, "id delta")
+				d := rapid.SampledFrom([]uint16{1, 2, 0x80, 0xff, 0x100, 0x8000, 0, 0}).Draw(t, "id delta")
 				id := (uint16(b[0])<<8 | uint16(b[1])) ^ d
 				p[0], p[1] = byte(id>>8), byte(id)
 				c.Prior, c.PriorMAC = p, mac[:]
-				if d == 0 {
+				if d == 0 && !(len(b) >= 3 && b[2]&0x80 == 0 && rapid.Bool().Draw(t, "sameStation")) {
 					other := w.UnicastMAC().Draw(t, "prior mac")
 					c.PriorMAC = other[:]
 				}
